@@ -326,7 +326,21 @@ pub fn resolve_steer(sc: &Scenario) -> Option<Scenario> {
     let st = sc.steer.as_ref()?;
     let compact = st.ops.iter().any(|t| t.contains('*'));
     let (script, mut n) = if compact {
-        (crate::synth::steer_tokens(sc.config.protocol, &st.ops), crate::synth::token_ops(&st.ops))
+        // scenarios that differ only in their tail share the steered program: steer it once per
+        // process (the first thread computes, the others wait for it)
+        use std::sync::OnceLock;
+        type Slot = Arc<OnceLock<Option<Vec<u8>>>>;
+        static CACHE: OnceLock<Mutex<std::collections::HashMap<String, Slot>>> = OnceLock::new();
+        let key = format!("{}|{}", sc.config.protocol, st.ops.join(" "));
+        let slot: Slot = {
+            let mut g = CACHE.get_or_init(|| Mutex::new(std::collections::HashMap::new())).lock().unwrap();
+            if g.len() > 512 {
+                g.clear();
+            }
+            g.entry(key).or_default().clone()
+        };
+        let script = slot.get_or_init(|| crate::synth::steer_tokens(sc.config.protocol, &st.ops)).clone();
+        (script, crate::synth::token_ops(&st.ops))
     } else {
         let ops: Vec<&'static str> = st.ops.iter().filter_map(|n| crate::lexer::by_name(n).map(|i| i.name)).collect();
         let prog = crate::synth::Program { ops };
